@@ -569,11 +569,14 @@ TwoDelivery(c) ==
   IF ~e.reply \/ e.fin.res = "ok" THEN [retried |-> FALSE]
   ELSE LET ctxs1 == FirstEffect(c, e.ctxs, e.r) IN
        [retried |-> TRUE, ctxs |-> ctxs1, r |-> e.genuine, fin |-> Finalize(c, ctxs1, e.genuine)]
+\* the algebra's verdict for the second delivery must not depend on what the implementation left behind
+\* after the first one: it is the verdict of the genuine reply against the contexts as they were
 Verdict2(c) ==
-  LET t == TwoDelivery(c) IN
+  LET t == TwoDelivery(c)
+      e == Exchange(c) IN
   IF ~t.retried THEN "none"
-  ELSE IF t.r.id \notin DOMAIN t.ctxs THEN "may_fail"
-  ELSE LET a == Asm(c, t.ctxs[t.r.id], t.r, "ideal") IN
+  ELSE IF t.r.id \notin DOMAIN e.ctxs THEN "may_fail"
+  ELSE LET a == Asm(c, e.ctxs[t.r.id], t.r, "ideal") IN
        IF ConsensusValid(a.tx) /\ FeeOk(a.tx) /\ Exact(c, a.tx) THEN "may_fail" ELSE "must_fail"
 Predict2(c) ==
   LET t == TwoDelivery(c) IN
